@@ -674,12 +674,30 @@ func injectOtherTmpCleanup() {
 	}
 }
 
-func injectCLI(cli string, args ...string) injectRun {
+// injectCLIEnv runs the tool in a restricted environment: with a small limit on open files (fdLimit > 0, through the
+// shell's ulimit) and / or as the unprivileged user 65534 (asNobody; only when the harness itself runs as root).
+func injectCLIEnv(fdLimit int, asNobody bool, cli string, args ...string) injectRun {
+	if fdLimit > 0 {
+		sh := fmt.Sprintf("ulimit -n %d && exec \"$0\" \"$@\"", fdLimit)
+		args = append([]string{"-c", sh, cli}, args...)
+		cli = "/bin/sh"
+	}
+	return injectCLIAs(asNobody && os.Geteuid() == 0, cli, args...)
+}
+
+var injectEnvMu sync.Mutex // restricted runs one at a time (they are few)
+
+func injectCLI(cli string, args ...string) injectRun { return injectCLIAs(false, cli, args...) }
+
+func injectCLIAs(nobody bool, cli string, args ...string) injectRun {
 	// the tool works on a handful of small files: a run that has not ended after 30 s does not end (e.g. it opened a
 	// named pipe for reading) - that stops every remaining file from being processed and is reported like a crash
 	ctx, cancel := context.WithTimeout(context.Background(), 30*time.Second)
 	defer cancel()
 	cmd := exec.CommandContext(ctx, cli, args...)
+	if nobody {
+		cmd.SysProcAttr = &syscall.SysProcAttr{Credential: &syscall.Credential{Uid: 65534, Gid: 65534}}
+	}
 	// every other run has its temporary directory on another file system than the files it works on (where the
 	// machine has one): a tool that writes next to / renames over its targets must cope with either
 	if d := injectOtherTmp(); d != "" && atomic.AddInt32(&injectRunNo, 1)%2 == 0 {
@@ -1122,6 +1140,37 @@ func injectConcretiseEnt(e *injectEnt, id, pos int) {
 	e.Conc = c
 }
 
+// injectNobodyOK: the unprivileged user can reach the scratch directory (every component of the path is made searchable
+// once); false when that cannot be arranged - the variation is then left out.
+var injectNobodyOnce sync.Once
+var injectNobodyAble bool
+
+func injectNobodyOK(work string) bool {
+	injectNobodyOnce.Do(func() {
+		abs, err := filepath.Abs(work)
+		if err != nil {
+			return
+		}
+		for p := abs; p != "/" && p != "."; p = filepath.Dir(p) {
+			fi, err := os.Stat(p)
+			if err != nil {
+				return
+			}
+			if fi.Mode().Perm()&0o005 != 0o005 {
+				if os.Chmod(p, fi.Mode().Perm()|0o055) != nil {
+					return
+				}
+			}
+		}
+		// the tool's binary must be executable by that user as well; tried with /bin/true
+		c := exec.Command("/bin/true")
+		c.SysProcAttr = &syscall.SysProcAttr{Credential: &syscall.Credential{Uid: 65534, Gid: 65534}}
+		c.Dir = abs
+		injectNobodyAble = c.Run() == nil
+	})
+	return injectNobodyAble
+}
+
 // injectSpecialState describes a symlink / pipe without following or opening it.
 func injectSpecialState(p string) string {
 	fi, err := os.Lstat(p)
@@ -1248,12 +1297,57 @@ func injectDirsCmd(args []string) error {
 					specials[name] = injectSpecialState(filepath.Join(dir, name))
 				}
 			}
+			// crowded directories also hold 40 Go files that do not parse, sorting first, and the tool gets 32 file
+			// descriptors: it works on one file at a time, so the files after them are processed all the same
+			fdLimit := 0
+			if v.ID%5 == 3 && mode != "f" {
+				fdLimit = 32
+				for k := 0; k < 40; k++ {
+					name := fmt.Sprintf("a5_broken%02d.go", k)
+					os.WriteFile(filepath.Join(dir, name), []byte(fmt.Sprintf("package broken%d\n\nfunc (\n", k)), 0o644)
+					specials[name] = injectSpecialState(filepath.Join(dir, name))
+				}
+			}
+			// one directory in seven holds, in front of the entries, a valid annotated file the tool may read but not write
+			// (mode 0444; the tool runs as the unprivileged user 65534 - only where the harness runs as root): a per-file
+			// fault on the WRITE side. It must stay as it is and must not touch what comes after it.
+			asNobody := false
+			if v.ID%7 == 2 && mode != "f" && os.Geteuid() == 0 && injectNobodyOK(*work) {
+				asNobody = true
+				ro := filepath.Join(dir, "a6_readonly.go")
+				os.WriteFile(ro, []byte("package demo\n\ntype RO struct {\n\tA string `json:\"a\"` // @tag valid:\"required\"\n\tB int32  `json:\"b\"` // @tag valid:\"to=1~9\"\n}\n"), 0o444)
+				os.Chmod(ro, 0o444)
+				specials["a6_readonly.go"] = injectSpecialState(ro)
+				filepath.Walk(dir, func(p string, info os.FileInfo, err error) error {
+					if err != nil || p == ro || info.Mode()&os.ModeSymlink != 0 {
+						return nil
+					}
+					if info.IsDir() {
+						os.Chmod(p, 0o777)
+					} else if info.Mode().IsRegular() {
+						os.Chmod(p, 0o666)
+					}
+					return nil
+				})
+			}
 			var runs []injectRun
 			switch mode {
 			case "d":
-				runs = append(runs, injectCLI(*cli, "-d", dir))
+				if fdLimit > 0 || asNobody {
+					injectEnvMu.Lock()
+					runs = append(runs, injectCLIEnv(fdLimit, asNobody, *cli, "-d", dir))
+					injectEnvMu.Unlock()
+				} else {
+					runs = append(runs, injectCLI(*cli, "-d", dir))
+				}
 			case "p":
-				runs = append(runs, injectCLI(*cli, "-p", filepath.Join(injectGlobEscape(dir), v.Pattern)))
+				if fdLimit > 0 || asNobody {
+					injectEnvMu.Lock()
+					runs = append(runs, injectCLIEnv(fdLimit, asNobody, *cli, "-p", filepath.Join(injectGlobEscape(dir), v.Pattern)))
+					injectEnvMu.Unlock()
+				} else {
+					runs = append(runs, injectCLI(*cli, "-p", filepath.Join(injectGlobEscape(dir), v.Pattern)))
+				}
 			case "f":
 				for i := range v.Ents {
 					runs = append(runs, injectCLI(*cli, "-f", filepath.Join(dir, v.Ents[i].Conc.Name)))
